@@ -41,7 +41,14 @@ class Driver:
             raw = list(pairs)
         self.source = raw if form == 2 else None
         self.source_items = list(raw.multi_items()) if form == 2 else None
+        # the caller's own pair list, and mappings built from that very list object before and after ours
+        self.caller_list = raw if isinstance(raw, list) else None
+        self.caller_copy = list(raw) if isinstance(raw, list) else None
+        from baize.datastructures import QueryParams, FormData
+        self.same_list = [QueryParams(raw)] if isinstance(raw, list) else []
         self.m = MutableMultiMapping(raw)
+        if isinstance(raw, list):
+            self.same_list.append(FormData(raw))
         self.universe = sorted(set(km.values()))
 
     def snapshot_siblings(self):
@@ -50,10 +57,12 @@ class Driver:
         sib = [QueryParams(self.m), FormData(self.m), MutableMultiMapping(self.m)]
         if self.source is not None:
             sib.append(self.source)
+        sib.extend(self.same_list)
         return [(o, [tuple(p) for p in o.multi_items()], list(o), {k: o.getlist(k) for k in self.universe}) for o in sib]
 
-    @staticmethod
-    def siblings_changed(snap):
+    def siblings_changed(self, snap):
+        if self.caller_list is not None and self.caller_list != self.caller_copy:
+            return "the list the mapping was built from changed when the mapping was mutated: %r -> %r" % (self.caller_copy, self.caller_list)
         for o, items, keys, lists in snap:
             now = [tuple(p) for p in o.multi_items()]
             if now != items or list(o) != keys or any(o.getlist(k) != v for k, v in lists.items()):
